@@ -73,6 +73,7 @@ package repository
 //@   ensures [complete] result1 == nil ==> (forall h Hash :: { anc(h, refs[ref]) } anc(h, refs[ref]) ==> (exists k int :: 0 <= k && k < len(result) && result[k] == h))
 //@ func RepoData.ListRefs
 //@   modifies nothing
+//@   ensures [none-on-error] result1 != nil ==> len(result) == 0
 
 // Clocks live outside the modelled heap (their values are the subject of C05).
 //@ func RepoClock.Witness
